@@ -419,6 +419,10 @@ def gen_record_ty(rng, k, depth, width):
         d = 'none'
         if kind(fty) in ('int', 'bool', 'char', 'str', 'fixed') and rng.random() < 0.25:
             d = gen_val(rng, fty, 0)
+        elif kind(fty) == 'arr' and rng.random() < 0.25:
+            # a declared default on an ARRAY field: a list of scalars or of records (records holding records / lists); an instance that
+            # leaves the field unassigned reads, encodes and round-trips it (the library hands out a deep copy, /repo c3c2285 + bda6d24)
+            d = complete(fty, gen_val(rng, fty, 2))
         fs.append([name, fty, d])
     return [k] + fs
 
